@@ -96,6 +96,51 @@ DESC = {
  "C20-r2m1": ("lib/synthesis.c vorbis_synthesis_halfrate: flag stored unnormalised", "half rate switched on with a non-zero flag other than 1"),
  "C20-r2m2": ("lib/vorbisfile.c ov_pcm_seek: remaining distance measured from the rounded target", "half-rate seek to an odd target"),
  "C20-r2m3": ("lib/vorbisfile.c ov_halfrate: position not restored when it is exactly 0", "toggle at position 0 after decoding has started"),
+ "C02-r3m1": ("lib/synthesis.c vorbis_synthesis_trackonly: vb->pcm=NULL after the ripcord removed again (the four early returns skip the later one)", "a block that has just decoded a packet for which its storage grew, then trackonly with a packet it rejects, then blockin anyway: reads freed chunks"),
+ "C02-r3m2": ("lib/sharedbook.c _book_unquantize case 2: used-entry index advances for unused entries too", "set-up header with a codebook of lookup type 2 that is also sparse (never written by the encoder): vorbis_synthesis_init reads past the sort index"),
+ "C02-r3m3": ("lib/synthesis.c vorbis_synthesis_halfrate: refusal guard <64 instead of <=64", "stream with 64-sample short blocks and half rate switched on: window table index -1"),
+ "C03-r3m1": ("lib/vorbisfile.c ov_pcm_seek discard loop: half-rate exit test target<0 instead of <1", "chain whose earlier links total an odd length, half rate, sample seek into the later link to an even position: never returns"),
+ "C03-r3m2": ("lib/vorbisfile.c _open_seekable2/_ov_open2: the last seek of the open returned directly, bypassing the failure clean-up", "seek callback fails on exactly the last seek of an otherwise successful open: error returned with the handle populated and the source attached"),
+ "C03-r3m3": ("lib/vorbisfile.c ov_crosslap: n1 computed with hs2", "ov_crosslap from a half-rate handle onto a full-rate one: window table read past its end"),
+ "C04-r3m1": ("lib/analysis.c vorbis_analysis direct-packet branch: granule position taken from the dsp state instead of the block", "encode through vorbis_analysis(&vb,&op) (unmanaged mode), stream of two or more audio pages: every packet stamped one block ahead"),
+ "C04-r3m2": ("lib/vorbisfile.c _get_prev_page_serial: granule position assigned once from the last page scanned", "Vorbis multiplexed with another logical stream whose last page comes after the Vorbis end-of-stream page: ov_pcm_total wrong"),
+ "C04-r3m3": ("lib/vorbisfile.c _fetch_and_process_packet: serial/link bookkeeping moved in front of _fetch_headers at a streaming link boundary", "streaming chain of two or more links: the second link is never delivered"),
+ "C07-r3m1": ("lib/vorbisfile.c _initial_pcmoffset: lastblock starts at 0", "a link whose granule positions start above zero: positions 64 off, seeks deliver sample T-64 as T"),
+ "C07-r3m2": ("lib/vorbisfile.c _bisect_forward_serialno: dataoffset taken after _initial_pcmoffset consumed a page", "chain, seek to a target on the first audio page of a link other than the first"),
+ "C07-r3m3": ("lib/vorbisfile.c ov_pcm_seek_page: beginning-of-link branch no longer restarts the synthesis state", "decoder initialised in link n, then a seek into the first page of the same link"),
+ "C08-r3m1": ("lib/vorbisfile.c _initial_pcmoffset: lastblock starts at 0 and the guard is dropped", "a link whose first audio page does not start at granule 0"),
+ "C08-r3m2": ("lib/vorbisfile.c ov_pcm_seek discard loop: target not scaled by the half-rate shift", "half rate, then a sample or time seek to a position off the block grid"),
+ "C08-r3m3": ("lib/vorbisfile.c ov_pcm_seek_page fallback rewind: lost negation in the page acceptance test", "a packet spanning three or more pages whose last page holds only its tail, target just behind it"),
+ "C09-r3m1": ("lib/vorbisfile.c ov_read_filter: channel count and frame size read before the fetch loop", "the one ov_read that crosses into a link with another channel count"),
+ "C09-r3m2": ("lib/synthesis.c vorbis_packet_blocksize: mode field width ov_ilog(modes)-1", "a link with a non-power-of-two mode count: its length and the total are wrong"),
+ "C09-r3m3": ("lib/vorbisfile.c _bisect_forward_serialno: priming value -1 instead of serialno+1", "chain with serial number 0xffffffff on a link that is not the last: its length becomes 0"),
+ "C10-r3m1": ("lib/vorbisfile.c _fetch_and_process_packet: page serial held in an unsigned 32-bit local", "seekable chain read linearly into a link whose serial has bit 31 set"),
+ "C10-r3m2": ("lib/synthesis.c vorbis_packet_blocksize: guard modes<=1", "a set-up with exactly one mode (8/11 kHz encodes), seekable open: the first audio page is dropped"),
+ "C10-r3m3": ("lib/vorbisfile.c _add_serialno: count incremented before the realloc that sizes the list with it", "two or more beginning-of-stream pages (multiplexed streams): heap overflow by one element"),
+ "C11-r3m1": ("lib/vorbisfile.c _fetch_and_process_packet: position re-anchored from granule positions only while unknown", "a page lost/rejected/repeated (OV_HOLE), then reading on for more than a page: positions stay off for the rest of the link"),
+ "C11-r3m2": ("lib/vorbisfile.c ov_pcm_seek skip loop: link's initial granule offset not subtracted", "stream whose positions do not start at 0, sample seek that skips a page-closing packet"),
+ "C11-r3m3": ("lib/vorbisfile.c ov_raw_seek: same-link firstflag test flipped", "byte seek whose scan starts on the final page of the current link"),
+ "C12-r3m1": ("lib/vorbisfile.c ov_raw_seek: guard tests callbacks.seek_func instead of seekable", "seek callback fails once at the very first callback of the open (handle opens as streaming), then ov_raw_seek(vf,0)"),
+ "C12-r3m2": ("lib/vorbisfile.c _fetch_and_process_packet: failed reads returned as OV_EREAD (the _ov_getlap loop only stops on OV_EOF)", "lapped seek or crosslap with a persisting read error and nothing left to lap: never returns"),
+ "C12-r3m3": ("lib/vorbisfile.c _get_prev_page: re-read failure check narrowed to OV_EREAD", "continued-packet tail page plus a persisting premature end of data starting inside the backward scan: zeroed page dereferenced"),
+ "C13-r3m1": ("lib/vorbisfile.c _fetch_and_process_packet: _decode_clear moved below the streaming header clear", "streaming chain read across a link boundary: previous link's look-ups and PCM buffers orphaned"),
+ "C13-r3m2": ("lib/floor0.c floor0_free_look: loop stops at the first empty map slot", "floor-0 set-up decoded with a long block and no short block before the clear"),
+ "C13-r3m3": ("lib/info.c vorbis_info_clear: residue loop bounded by the floor count", "set-up header with more residues than floors"),
+ "C14-r3m1": ("lib/vorbisenc.c OV_ECTL_RATEMANAGE2_SET: the two bias range checks joined with &&", "reservoir bias outside [0,1] accepted: fill level starts outside the reservoir"),
+ "C14-r3m2": ("lib/bitrate.c vorbis_bitrate_init: per-block budgets divided by a truncated blocks-per-second", "sample rates that are not a multiple of the short half block (8/16 kHz), long runs or small reservoirs"),
+ "C14-r3m3": ("lib/bitrate.c vorbis_bitrate_addblock: zero padding sized from the short-block minimum", "hard minimum, digital silence (long blocks), small head-room"),
+ "C17-r3m1": ("lib/vorbisfile.c ov_read_filter: filter applied before the frame count is clamped", "ov_read_filter with a non-idempotent filter and a buffer shorter than what is pending"),
+ "C17-r3m2": ("lib/vorbisfile.c ov_read_filter: range guard missing in the big-endian 16-bit loop", "word=2, bigendianp=1 and a sample of +65536.0 or more"),
+ "C17-r3m3": ("lib/vorbisfile.c ov_read_filter: clamped read returns length instead of the bytes written", "buffer length not a multiple of the frame size with more data pending"),
+ "C18-r3m1": ("lib/codebook.c vorbis_book_decodev_set: whole vectors only", "floor-0 stream whose LSP order is not a multiple of the value book's dimension: trailing coefficients keep block memory contents"),
+ "C18-r3m2": ("lib/vorbisfile.c _bisect_forward_serialno: last link's length only stored when the final granule is positive", "seekable file cut off inside a multi-page packet (last page without granule position): total is heap garbage"),
+ "C18-r3m3": ("lib/block.c _vds_shared_init: PCM buffers from malloc instead of calloc", "encode of at most 32 samples: lead-in never overwritten"),
+ "C19-r3m1": ("lib/vorbisfile.c _ov_splice: channels that exist only at the new position faded with w instead of w*w", "lapped seek / crosslap into a link with more channels"),
+ "C19-r3m2": ("lib/vorbisfile.c ov_time_seek_page_lap: passes ov_time_seek", "ov_time_seek_page_lap to a target off a page start: lands elsewhere than the plain call"),
+ "C19-r3m3": ("lib/block.c vorbis_window: full-rate window returned at half rate", "half rate, then any lapped seek or crosslap"),
+ "C20-r3m1": ("lib/synthesis.c vorbis_synthesis_halfrate: refusal threshold applied to the halved block size", "stream with 128-sample short blocks: half rate refused"),
+ "C20-r3m2": ("lib/block.c vorbis_synthesis_blockin: end trim of a first-and-last page scaled twice at half rate", "half rate on a very short link with all audio on one page"),
+ "C20-r3m3": ("lib/vorbisfile.c _ov_d_seek_lap: lap length of the landing link not halved", "half rate, chain with different short block sizes, time-based lapped seek from the big-block into the small-block link"),
 }
 
 def main():
